@@ -15,6 +15,10 @@ structure St where
   sinks : List (Nat × TL.SinkSt) := []
   eh : Errs.Heap := #[]                  -- the `*errs.Error` cells that exist in the harness
   sentinels : List (Nat × Nat) := []     -- sink ↦ heap cell of its long-lived sentinel error
+  aggs : List (Nat × Nat) := []          -- sink ↦ heap cell of its long-lived two-element aggregate
+  panicMsg : List (Nat × String) := []   -- sink ↦ text of the value its `Write` panics with (a harness token)
+  panicSent : List Nat := []             -- sinks whose `Write` panics with the sentinel itself
+  vars : List Nat := []                  -- sinks whose handler family shares a `*slog.LevelVar`
 
 def getH (s : St) (n : String) : Option H := s.handlers.lookup n
 def setH (s : St) (n : String) (h : H) : St := { s with handlers := (n, h) :: s.handlers.filter (·.1 != n) }
@@ -61,6 +65,12 @@ partial def parseAttrs (ws : List String) (acc : List TL.Attr) : Option (List TL
     | some (a, rest) => parseAttrs rest (a :: acc)
     | none => none
 
+/-- the level field of `new`/`norm`: a number, `nil`, `tnil` or `var:<n>`; the flag marks a shared `LevelVar` -/
+def parseLevel (w : String) : Option (Option Int × Bool) :=
+  if w == "nil" || w == "tnil" then some (none, false)
+  else if w.startsWith "var:" then (w.drop 4).toString.toInt?.map fun l => (some l, true)
+  else w.toInt?.map fun l => (some l, false)
+
 def parseNames (ws : List String) : Option (List (Int × TL.Bytes)) :=
   ws.mapM fun w => match w.splitOn ":" with
     | [l, n] => match l.toInt?, hexBytes? n with
@@ -78,6 +88,7 @@ def showWrites (ws : List (Nat × TL.Bytes)) : List String :=
 def errMsg (k : TL.ErrKind) (sink : Nat) : String :=
   match k with
   | .sentinel => "sinksentinel" ++ toString sink
+  | .aggregate => "sinkagg" ++ toString sink
   | _ => "sinkfail" ++ toString sink
 
 def showItem : ML.ErrItem → String
@@ -86,9 +97,9 @@ def showItem : ML.ErrItem → String
 
 /-- one element of `WrappedErrors()` as the harness prints it -/
 def showNode (eh : Errs.Heap) (n : Errs.ENode) : String :=
-  if n.msg == "recovered from panic" && n.cause != .nilIface then
-    "P:" ++ (match n.cause with | .ref c => Errs.message eh c | v => Errs.errorText v)
-  else "E:" ++ n.msg
+  -- a recovered panic is an error ABOUT a cause (its message differs from the cause's); see the harness
+  let causeMsg := match n.cause with | .ref c => Errs.message eh c | v => Errs.errorText v
+  if n.cause != .nilIface && n.msg != causeMsg then "P:" ++ causeMsg else "E:" ++ n.msg
 
 /-- an `error` value as the harness prints it: nil, a foreign error, or `Count()[WrappedErrors()...]` -/
 def showVal (eh : Errs.Heap) : Errs.Val → String
@@ -96,6 +107,7 @@ def showVal (eh : Errs.Heap) : Errs.Val → String
       ",".intercalate ((Errs.wrappedErrors eh id).map (showNode eh)) ++ "]"
   | .plain _ m => "ret=E:" ++ m
   | .typedNil => "ret=typed-nil"
+  | .foreignNil => "ret=E:foreign-nil"
   | _ => "ret=nil"
 
 def strHex (m : String) : String := bytesHex (m.toUTF8.toList.map (·.toNat))
@@ -105,7 +117,9 @@ def showSentinels (s : St) : String :=
   let ss := s.sentinels.toArray.qsort (fun a b => a.1 < b.1) |>.toList
   if ss.isEmpty then "sent=-" else
   "sent=" ++ ",".intercalate (ss.map fun (k, id) =>
-    toString k ++ ":" ++ toString (Errs.count s.eh id) ++ ":" ++ strHex (Errs.message s.eh id))
+    let a := (s.aggs.lookup k).getD 0
+    toString k ++ ":" ++ toString (Errs.count s.eh id) ++ ":" ++ strHex (Errs.message s.eh id) ++ ":" ++
+      toString (Errs.count s.eh a) ++ ":" ++ strHex (Errs.message s.eh a))
 
 /-- the `error` value a tracelog child's `Handle` comes back with inside `runHandler` (a panic is recovered into
     `NewWithCause("recovered from panic", Newf("%+v", recovered))`); fresh values are allocated on the heap -/
@@ -118,18 +132,32 @@ def retVal (s : St) (ret : TL.Ret) : St × Errs.Val :=
     match s.sentinels.lookup k with
     | some id => (s, .ref id)
     | none => (s, .nilIface)
+  | .err k .aggregate =>
+    match s.aggs.lookup k with
+    | some id => (s, .ref id)
+    | none => (s, .nilIface)
+  | .err _ .typedNil => (s, .typedNil)
+  | .err _ .foreignNil => (s, .foreignNil)
   | .panic k =>
-    let (eh, c) := Errs.new s.eh ("sinkpanic" ++ toString k)
-    let (eh, v) := Errs.newWithCause eh "recovered from panic" c
-    ({ s with eh := eh }, v)
+    if s.panicSent.contains k then
+      let (eh, v) := Errs.newWithCause s.eh "recovered from panic" (.ref ((s.sentinels.lookup k).getD 0))
+      ({ s with eh := eh }, v)
+    else
+      let (eh, c) := Errs.new s.eh ((s.panicMsg.lookup k).getD ("sinkpanic" ++ toString k))
+      let (eh, v) := Errs.newWithCause eh "recovered from panic" c
+      ({ s with eh := eh }, v)
 
 /-- the abstract child multilog sees: level threshold of the tracelog handler, outcome decided by its sink -/
 def childOf (s : St) (i : Nat) (c : TL.Handler) : ML.Child :=
   let sk := (getS s c.sink).getD {}
   let oc : ML.Outcome := match (TL.deliver sk c.sink []).2.2 with
     | .nil => .ok
+    | .err _ .typedNil => .ok          -- `errs.Append` takes a typed nil for "no error"
+    | .err _ .foreignNil => .ok
     | .err k kind => .err (errMsg kind k)
-    | .panic k => .panic ("sinkpanic" ++ toString k)
+    | .panic k =>
+      if s.panicSent.contains k then .panic ("sinksentinel" ++ toString k)
+      else .panic ((s.panicMsg.lookup k).getD ("sinkpanic" ++ toString k))
   { id := i, minLevel := c.level, outcome := oc }
 
 def children (s : St) (m : ML.Handler) : List ML.Child :=
@@ -146,7 +174,9 @@ def doLog (s : St) (h : H) (r : TL.Record) : St × String :=
   | .tl t =>
     let (s', ws, ret) := tlHandle s t r
     let (s', out) := match ret with
-      | .panic k => (s', "ret=panic:sinkpanic" ++ toString k)
+      | .panic k =>
+        (s', "ret=panic:" ++ (if s.panicSent.contains k then "sinksentinel" ++ toString k
+                              else (s.panicMsg.lookup k).getD ("sinkpanic" ++ toString k)))
       | ret => let (s2, v) := retVal s' ret; (s2, showVal s2.eh v)
     (s', " ".intercalate (showWrites ws ++ [out, showSentinels s']))
   | .ml m =>
@@ -166,7 +196,10 @@ def doLog (s : St) (h : H) (r : TL.Record) : St × String :=
     -- the list model (`ML.handle`, theorems fanout_*) and the heap model must tell the same story
     let abstract := if res.isNil then "ret=nil"
       else "ret=" ++ toString res.errors.length ++ "[" ++ ",".intercalate (res.errors.map showItem) ++ "]"
-    let ret := if ret == abstract then ret else ret ++ " list-model-differs:" ++ abstract
+    -- (a child handing back a two-element aggregate is one `err` in the list model: no comparison then)
+    let hasAgg := (children s m).any fun c => match c.outcome with
+      | .err msg => msg.startsWith "sinkagg" | _ => false
+    let ret := if ret == abstract || hasAgg then ret else ret ++ " list-model-differs:" ++ abstract
     (s', " ".intercalate (showWrites ws ++ [ret, showSentinels s']))
 
 def isEnabled (s : St) (h : H) (level : Int) : Bool :=
@@ -178,19 +211,67 @@ def nowTok : TL.Bytes := TL.ascii " | NOW | "
 def stackTok : TL.Bytes := TL.ascii "<<STACK>>"
 def fbTok : TL.Bytes := TL.ascii "<<FB>>"
 
+/-- the ten `errs.Log*` entry points all do: `logger.Enabled`? then `Handle` of a record whose message is the
+    error's and whose first attribute carries the stack (nothing of the kind for a nil error); the result of
+    `Handle` is dropped.  `ek`: e = *errs.Error, p = plain error (wrapped inside errs), n = nil, t = typed nil. -/
+def logX (s : St) : List String → St × String
+  | ek :: h :: lvl :: msg :: ws =>
+    match getH s h, lvl.toInt?, hexBytes? msg, parseAttrs ws [] with
+    | some h, some lvl, some msg, some as =>
+      if isEnabled s h lvl then
+        let noErr := ek == "n" || ek == "t"
+        let r : TL.Record := if noErr then { level := lvl, ts := nowTok, msg := [], attrs := as }
+          else { level := lvl, ts := nowTok, msg := msg,
+                 attrs := .stack TL.stackKey stackTok (.leaf TL.stackKey fbTok) :: as }
+        let (s', out) := doLog s h r
+        -- errs.Log* discards Handle's result; a panic of a tracelog sink still reaches the caller
+        match out.splitOn " sent=" with
+        | [a, b] =>
+          match a.splitOn "ret=" with
+          | [w, r] => (s', w ++ (if r.startsWith "panic:" then "ret=" ++ r else "ret=void") ++ " sent=" ++ b)
+          | _ => (s', out)
+        | _ => (s', out)
+      else (s, "ret=void " ++ showSentinels s)
+    | _, _, _, _ => (s, "bad-op")
+  | _ => (s, "bad-op")
+
 def step (s : St) (line : String) : St × String :=
   match words line with
   | "reset" :: _ => ({}, "reset")
   | "new" :: h :: sink :: lvl :: depth :: names =>
-    match sink.toNat?, lvl.toInt?, depth.toNat?, parseNames names with
-    | some sink, some lvl, some depth, some names =>
+    match sink.toNat?, parseLevel lvl, depth.toInt?, parseNames names with
+    | some sink, some (lvl, isVar), some depth, some names =>
+      let (lvl, depth) := TL.normalize lvl depth
       -- a fresh handler has a nil list: a slice of length 0
       let t : TL.Handler := { level := lvl, names := names, sink := sink, list := { arr := 0, len := 0 } }
       let sk : TL.SinkSt := { buf := if depth > 0 then some { cap := depth } else none }
+      let sid := s.eh.size
       let (eh, _) := Errs.new s.eh ("sinksentinel" ++ toString sink)
-      let s := { s with eh := eh, sentinels := (sink, s.eh.size) :: s.sentinels.filter (·.1 != sink) }
+      let (eh, a) := Errs.new eh ("sinkagg" ++ toString sink ++ "a")
+      let (eh, b) := Errs.new eh ("sinkagg" ++ toString sink ++ "b")
+      let eh := (Errs.append eh a [b]).1
+      let s := { s with eh := eh, sentinels := (sink, sid) :: s.sentinels.filter (·.1 != sink),
+                        aggs := (sink, sid + 1) :: s.aggs.filter (·.1 != sink),
+                        vars := if isVar then sink :: s.vars else s.vars.filter (· != sink) }
       (setS (setH s h (.tl t)) sink sk, "ok")
     | _, _, _, _ => (s, "bad-op")
+  | ["setlevel", sink, lvl] =>
+    match sink.toNat?, lvl.toInt? with
+    | some k, some lvl =>
+      if s.vars.contains k then
+        -- the `Leveler` is shared by the root and everything derived from it, also inside multilog handlers
+        let upd (t : TL.Handler) : TL.Handler := if t.sink == k then { t with level := lvl } else t
+        ({ s with handlers := s.handlers.map fun (n, h) => match h with
+            | .tl t => (n, .tl (upd t))
+            | .ml m => (n, .ml { children := m.children.map upd }) }, "ok")
+      else (s, "bad-op")
+    | _, _ => (s, "bad-op")
+  | ["norm", lvl, depth, given] =>
+    match parseLevel lvl, depth.toInt? with
+    | some (lvl, _), some depth =>
+      let (l, d) := TL.normalize lvl depth
+      (s, "level=" ++ toString l ++ " depth=" ++ toString d ++ " sink=" ++ (if given == "1" then "given" else "stderr"))
+    | _, _ => (s, "bad-op")
   | "mnew" :: m :: kids =>
     match kids.mapM (fun k => match getH s k with | some (.tl t) => some t | _ => none) with
     | some cs => (setH s m (.ml { children := cs }), "ok")
@@ -199,19 +280,19 @@ def step (s : St) (line : String) : St × String :=
     match getH s p, hexBytes? name with
     | some (.tl t), some name =>
       let (σ, t', same) := TL.withGroup s.store t name
-      (setH { s with store := σ } n (.tl t'), if same then "same" else "new")
+      (setH { s with store := σ } n (.tl t'), (fun (_ : Bool) => "ok") same)
     | some (.ml m), some name =>
       let (σ, m', same) := ML.withGroup s.store m name
-      (setH { s with store := σ } n (.ml m'), if same then "same" else "new")
+      (setH { s with store := σ } n (.ml m'), (fun (_ : Bool) => "ok") same)
     | _, _ => (s, "bad-op")
   | "wa" :: n :: p :: ws =>
     match getH s p, parseAttrs ws [] with
     | some (.tl t), some as =>
       let (σ, t', same) := TL.withAttrs s.store t as
-      (setH { s with store := σ } n (.tl t'), if same then "same" else "new")
+      (setH { s with store := σ } n (.tl t'), (fun (_ : Bool) => "ok") same)
     | some (.ml m), some as =>
       let (σ, m', same) := ML.withAttrs s.store m as
-      (setH { s with store := σ } n (.ml m'), if same then "same" else "new")
+      (setH { s with store := σ } n (.ml m'), (fun (_ : Bool) => "ok") same)
     | _, _ => (s, "bad-op")
   | ["en", h, lvl] =>
     match getH s h, lvl.toInt? with
@@ -224,10 +305,21 @@ def step (s : St) (line : String) : St × String :=
       | some sk =>
         let mode? : Option TL.Mode := match m with
           | "ok" => some .ok | "fail" => some (.fail .plain) | "faile" => some (.fail .fresh)
-          | "fails" => some (.fail .sentinel) | "panic" => some .panic | "panice" => some .panic | _ => none
+          | "fails" => some (.fail .sentinel) | "failm" => some (.fail .aggregate)
+          | "failn" => some (.fail .typedNil) | "failf" => some (.fail .foreignNil)
+          | "panic" | "panice" | "panicr" | "panicp" | "panicn" | "panics" => some .panic | _ => none
         match mode? with
         | some md =>
-          if sk.buf.isSome && md == .panic then (s, "bad-op") else (setS s i { sk with mode := md }, "ok")
+          if sk.buf.isSome && md == .panic then (s, "bad-op") else
+          -- the text of the panic value is a token of the harness / the Go runtime
+          let txt : String := match m with
+            | "panicr" => "RUNTIMEERR"
+            | "panicp" => "<nil>"
+            | "panicn" => "PANICNIL"
+            | _ => "sinkpanic" ++ toString i
+          let s := { s with panicMsg := (i, txt) :: s.panicMsg.filter (·.1 != i),
+                            panicSent := if m == "panics" then i :: s.panicSent else s.panicSent.filter (· != i) }
+          (setS s i { sk with mode := md }, "ok")
         | none => (s, "bad-op")
       | none => (s, "bad-op")
     | none => (s, "bad-op")
@@ -260,18 +352,8 @@ def step (s : St) (line : String) : St × String :=
     match getH s h, lvl.toInt?, hexBytes? ts, hexBytes? msg, parseAttrs ws [] with
     | some h, some lvl, some ts, some msg, some as => doLog s h { level := lvl, ts := ts, msg := msg, attrs := as }
     | _, _, _, _, _ => (s, "bad-op")
-  | "logerr" :: h :: lvl :: msg :: ws =>
-    match getH s h, lvl.toInt?, hexBytes? msg, parseAttrs ws [] with
-    | some h, some lvl, some msg, some as =>
-      if isEnabled s h lvl then
-        let (s', out) := doLog s h { level := lvl, ts := nowTok, msg := msg,
-                                     attrs := .stack TL.stackKey stackTok (.leaf TL.stackKey fbTok) :: as }
-        -- errs.Log* discards Handle's result; a panic of a tracelog sink still reaches the caller
-        let ws := words out
-        let ws := ws.map fun w => if w.startsWith "ret=" && !w.startsWith "ret=panic:" then "ret=void" else w
-        (s', " ".intercalate ws)
-      else (s, "ret=void " ++ showSentinels s)
-    | _, _, _, _ => (s, "bad-op")
+  | "logerr" :: rest => logX s ("e" :: rest)
+  | "logx" :: _ :: _ :: _ :: ek :: rest => logX s (ek :: rest)
   | _ => (s, "bad-op")
 
 end C13Drv
